@@ -19,8 +19,8 @@
 (* harness-evaluated predicates.                                           *)
 (*                                                                         *)
 (* One shape per variable: act = [op,p,q,ix,a,b,i], res = [k,c1,c2],       *)
-(* cact = [c,np,pr,p2,both,dim,nrel,pin,base], cres = [k,out,base,h,pred,  *)
-(* pred2].                                                                 *)
+(* cact = [c,ctor,id,np,pr,p2,both,st,sibs,adapt,dim,nrel,pin,base],       *)
+(* cres = [k,out,base,h,pred,pred2,reg,mag,built].                         *)
 (***************************************************************************)
 EXTENDS Integers, Sequences, FiniteSets, TLC
 
@@ -29,11 +29,15 @@ vars == <<act, res, cact, cres>>
 
 A(op, p, q, ix, a, b, i) == [op |-> op, p |-> p, q |-> q, ix |-> ix, a |-> a, b |-> b, i |-> i]
 R(k, c1, c2) == [k |-> k, c1 |-> c1, c2 |-> c2]
+NoVal == 99     \* "absent" in an integer field (an argument the constructor does not take, a state that is missing)
+(* a component built by its plain constructor `new` under the default      *)
+(* identifier `Global`, alone in the state, parameters never adapted       *)
 CA(c, np, pr, p2, both, dim, nrel, pin, base) ==
-    [c |-> c, np |-> np, pr |-> pr, p2 |-> p2, both |-> both, dim |-> dim, nrel |-> nrel,
-     pin |-> pin, base |-> base]
+    [c |-> c, ctor |-> "new", id |-> "Global", np |-> np, pr |-> pr, p2 |-> p2, both |-> both,
+     st |-> 0, sibs |-> <<>>, adapt |-> <<>>, dim |-> dim, nrel |-> nrel, pin |-> pin, base |-> base]
 CR(k, out, base, h, pred, pred2) ==
-    [k |-> k, out |-> out, base |-> base, h |-> h, pred |-> pred, pred2 |-> pred2]
+    [k |-> k, out |-> out, base |-> base, h |-> h, pred |-> pred, pred2 |-> pred2,
+     reg |-> <<>>, mag |-> <<>>, built |-> <<>>]
 
 A0  == A("init", <<>>, <<>>, <<>>, 0, 0, 0)
 R0  == R("ok", <<>>, <<>>)
@@ -117,6 +121,51 @@ Arith4(p, q, ix) ==
     << [j \in 1..Len(p) |-> ix[j] * p[j] + (4 - ix[j]) * q[j]],
        [j \in 1..Len(p) |-> ix[j] * q[j] + (4 - ix[j]) * p[j]] >>
 
+(* arithmetic_crossover on real genes far outside the exactly computable   *)
+(* range (op "arith_x": +-f64::MAX, 1e17 next to 0.1, huge next to tiny,   *)
+(* alpha at and next to the ends 0 and 1).  Floats do not reach the spec   *)
+(* (DESIGN 2.4): a gene is logged as its RANK in the harness' strictly     *)
+(* increasing table of finite values (P-rank), an alpha as its index in    *)
+(* the increasing alpha table (0 = exactly 0.0, AlphaTop = exactly 1.0,    *)
+(* everything between strictly inside), and each child gene as the code    *)
+(*    cls + 10 * nearP + 20 * nearQ + 40 * cons     (P-class / P-pred)     *)
+(* cls   0 finite and between the two parental genes of its position (the  *)
+(*         interval is widened by 4 ulp of the respective end: the         *)
+(*         rounding of two products and one sum), 1 below, 2 above,        *)
+(*         3 NaN, 4 infinite;                                              *)
+(* nearP / nearQ  within 4 ulp of the gene of parent 1 / parent 2;         *)
+(* cons  the two children of the position sum to the sum of the parental   *)
+(*       genes (halves compared, tolerance 8 ulp of the larger magnitude). *)
+AlphaTop == 8
+XCls(v)   == v % 10
+XNearP(v) == (v \div 10) % 2 = 1
+XNearQ(v) == (v \div 20) % 2 = 1
+XCons(v)  == (v \div 40) % 2 = 1
+(* What the property demands of one reply: every child gene is a convex    *)
+(* combination of the parental genes - finite, between them, conserved     *)
+(* across the two children - and the combination the given alpha selects   *)
+(* where that is decidable without real arithmetic: alpha = 1 returns the  *)
+(* genes of (parent1, parent2), alpha = 0 those of (parent2, parent1).     *)
+ArithXRel(a, r) ==
+    /\ r.k = "ok" /\ Len(r.c1) = Len(a.p) /\ Len(r.c2) = Len(a.p)
+    /\ \A j \in 1..Len(a.p) :
+          /\ XCls(r.c1[j]) = 0 /\ XCls(r.c2[j]) = 0
+          /\ XCons(r.c1[j]) /\ XCons(r.c2[j])
+          /\ a.ix[j] = AlphaTop => XNearP(r.c1[j]) /\ XNearQ(r.c2[j])
+          /\ a.ix[j] = 0        => XNearQ(r.c1[j]) /\ XNearP(r.c2[j])
+          /\ a.p[j] = a.q[j]    => XNearP(r.c1[j]) /\ XNearQ(r.c1[j]) /\ XNearP(r.c2[j]) /\ XNearQ(r.c2[j])
+(* Constructive reference (model checking only): ranks read as integers,   *)
+(* alpha = ix / AlphaTop, children multiplied by AlphaTop, then projected. *)
+XCode(c, p, q, sum) ==
+    (IF c < AlphaTop * Lo(p, q) THEN 1 ELSE IF c > AlphaTop * Hi(p, q) THEN 2 ELSE 0)
+    + (IF c = AlphaTop * p THEN 10 ELSE 0) + (IF c = AlphaTop * q THEN 20 ELSE 0)
+    + (IF sum = AlphaTop * (p + q) THEN 40 ELSE 0)
+ArithXModel(a) ==
+    LET k1(j) == a.ix[j] * a.p[j] + (AlphaTop - a.ix[j]) * a.q[j]
+        k2(j) == a.ix[j] * a.q[j] + (AlphaTop - a.ix[j]) * a.p[j]
+    IN R("ok", [j \in 1..Len(a.p) |-> XCode(k1(j), a.p[j], a.q[j], k1(j) + k2(j))],
+               [j \in 1..Len(a.p) |-> XCode(k2(j), a.p[j], a.q[j], k1(j) + k2(j))])
+
 (* cycle_crossover(parent1, parent2): positions are partitioned into the   *)
 (* cycles of pos -> position in parent1 of parent2[pos]; a cycle is        *)
 (* numbered by (its least position, 1-based); odd cycles keep their        *)
@@ -135,7 +184,7 @@ CycleX(p, q) ==
 SwapOps  == {"circular_swap", "circular_swap2"}
 TransOps == {"translocate_slice", "translocate_slice2"}
 PermOps  == SwapOps \cup TransOps
-PairOps  == {"multi_point", "uniform", "arithmetic", "cycle"}
+PairOps  == {"multi_point", "uniform", "arithmetic", "arith_x", "cycle"}
 FnOps    == PermOps \cup PairOps
 
 IdxIn(ix, n) == \A k \in DOMAIN ix : ix[k] \in 0..n - 1
@@ -149,6 +198,8 @@ ValidFn(a) ==
                                  /\ IsInj(a.ix) /\ IdxIn(a.ix, n)
       [] a.op = "uniform"     -> Len(a.q) = n /\ Len(a.ix) = n /\ \A k \in 1..n : a.ix[k] \in {0, 1}
       [] a.op = "arithmetic"  -> Len(a.q) = n /\ Len(a.ix) = n /\ \A k \in 1..n : a.ix[k] \in 0..4
+      [] a.op = "arith_x"     -> /\ Len(a.q) = n /\ Len(a.ix) = n /\ \A k \in 1..n : a.ix[k] \in 0..AlphaTop
+                                 /\ \A k \in 1..n : a.p[k] >= 1 /\ a.q[k] >= 1
       [] a.op = "cycle"       -> Len(a.q) = n /\ IsInj(a.p) /\ IsInj(a.q) /\ Range(a.p) = Range(a.q)
       [] OTHER -> FALSE
 
@@ -163,9 +214,11 @@ ApplyFn(a) ==
       [] a.op = "cycle"       -> Pair("ok", CycleX(a.p, a.q))
 
 (* One helper call: a valid call never panics and returns the oracle value *)
+(* (for "arith_x": a reply related to the arguments by ArithXRel).         *)
+FnRel(a, r) == IF a.op = "arith_x" THEN ArithXRel(a, r) ELSE r = ApplyFn(a)
 DoFn(a) == /\ ValidFn(a)
            /\ act' = a
-           /\ res' = ApplyFn(a)
+           /\ IF a.op = "arith_x" THEN res' = ArithXModel(a) ELSE res' = ApplyFn(a)
            /\ UNCHANGED <<cact, cres>>
 
 ---------------------------------------------------------------------------
@@ -197,6 +250,18 @@ ArithConvex ==
               /\ 4 * Lo(act.p[j], act.q[j]) <= res.c1[j] /\ res.c1[j] <= 4 * Hi(act.p[j], act.q[j])
               /\ 4 * Lo(act.p[j], act.q[j]) <= res.c2[j] /\ res.c2[j] <= 4 * Hi(act.p[j], act.q[j])
               /\ res.c1[j] + res.c2[j] = 4 * (act.p[j] + act.q[j])
+
+(* ... on extreme genes: finite, between the parents, conserved; the ends  *)
+(* of the alpha range return the parental genes                            *)
+ArithXConvex ==
+    act.op = "arith_x" =>
+        /\ Len(res.c1) = Len(act.p) /\ Len(res.c2) = Len(act.p)
+        /\ \A j \in 1..Len(act.p) : \A v \in {res.c1[j], res.c2[j]} : XCls(v) = 0 /\ XCons(v)
+ArithXEnds ==
+    act.op = "arith_x" =>
+        \A j \in 1..Len(act.p) :
+            /\ act.ix[j] = AlphaTop => XNearP(res.c1[j]) /\ XNearQ(res.c2[j])
+            /\ act.ix[j] = 0        => XNearQ(res.c1[j]) /\ XNearP(res.c2[j])
 
 (* a circular swap moves exactly the chosen positions, one step each       *)
 SwapMovesChosen ==
@@ -232,12 +297,28 @@ CycleWhole ==
 (* Part 2: components through the public Component API.                    *)
 (*                                                                         *)
 (* cact.c    component (struct name)                                       *)
+(* cact.ctor the public constructor the executed instance was built with   *)
+(* cact.id   its identifier ("Global" | "A" | "B"; "Global" for the        *)
+(*           components that have no identifier parameter)                 *)
 (* cact.np   integer parameter: num_swap / n (points) / y                  *)
-(* cact.pr   class of the rate (MutationRate as set up by `init`, or pc):  *)
-(*           0 = exactly 0, 1 = strictly inside (0,1), 2 = exactly 1,      *)
-(*           3 = outside [0,1]                                             *)
-(* cact.p2   class of the second probability (PartialRandomBitstring::p)   *)
-(* cact.both insert_both (1/0)                                             *)
+(* cact.pr   ARGUMENT given to the constructor: class of the rate (rm or   *)
+(*           pc): 0 = exactly 0, 1 = strictly inside (0,1), 2 = exactly 1, *)
+(*           3 = outside [0,1]; NoVal if the constructor takes no rate     *)
+(* cact.p2   argument: class of the second probability                     *)
+(*           (PartialRandomBitstring::p; 5 = exactly 0.5), NoVal if not    *)
+(*           taken                                                         *)
+(* cact.both argument insert_both (1/0), NoVal if not taken                *)
+(* cact.st   argument std_dev / bound of Normal-/UniformMutation: index in  *)
+(*           the strength ladder 0.125, 0.5, 2, 8 (1..4), 9 = NaN          *)
+(*           (invalid); 0 for the components without a strength            *)
+(* cact.sibs further instances of the same component under OTHER           *)
+(*           identifiers, initialised in the same state:                   *)
+(*           sequence of [id, pr, st]                                      *)
+(* cact.adapt adaptations made through the state after all `init`s, in     *)
+(*           order: sequence of [id, w, v]: w = 1 MutationRate := class v, *)
+(*           w = 2 MutationStrength := ladder index v, of identifier id    *)
+(* The parameters an execution must obey are DERIVED by the spec from      *)
+(* these arguments (Built, RegOf, Eff below), not logged by the harness.   *)
 (* cact.dim  problem dimension; cact.nrel = 0 iff 1 <= np < dim            *)
 (* cact.pin  top population before (sequence of integer sequences);        *)
 (* cact.base the population below it (DE crossovers), else <<>>            *)
@@ -245,11 +326,23 @@ CycleWhole ==
 (*           returned Err) | "panic" | "timeout" (watchdog)                *)
 (* cres.out / cres.base / cres.h  top population, population below, stack  *)
 (*           height after; cres.pred, cres.pred2 harness-side predicates   *)
+(* cres.reg  the MutationRate / MutationStrength states read back after    *)
+(*           the execution: for Global, A, B in this order <<class of the  *)
+(*           rate, ladder index of the strength>>, NoVal where the state   *)
+(*           is missing; <<>> for components without identifier            *)
+(* cres.built the parameters of the built instance as it serialises them:  *)
+(*           <<class of rm / pc, class of p, insert_both, ladder index of  *)
+(*           std_dev / bound, num_swap / n / y>> (0 where the component    *)
+(*           has no such field); <<>> if no instance was built             *)
+(* cres.mag  UniformMutation: per coordinate the least ladder index k with *)
+(*           |new - old| <= ladder[k] (0 = bit-identical, 5 = beyond the   *)
+(*           ladder); <<>> for every other component                       *)
 (*                                                                         *)
 (* Projections.  Integer encodings (bits, permutations, labelled genes)    *)
 (* are logged as they are.  Real mutations: pin[j] = zeros, out[j][c] =    *)
 (* 0 bit-identical / 1 changed and the component's range predicate holds / *)
-(* 2 changed and it fails.  ArithmeticCrossover, DEMutation: pin[j] is     *)
+(* 2 changed and it fails (Normal-, UniformMutation: finite;               *)
+(* PartialRandomSpread: inside the domain).  ArithmeticCrossover, DEMutation: pin[j] is     *)
 (* filled with the tag j, out[o] with the tag of the bit-identical input   *)
 (* vector (0 = new vector); pred / pred2 as described at the relations.    *)
 RealMut == {"NormalMutation", "UniformMutation", "PartialRandomSpread"}
@@ -260,6 +353,65 @@ GeneX   == {"NPointCrossover", "UniformCrossover", "CycleCrossover"}
 Cross   == GeneX \cup {"ArithmeticCrossover"}
 DEX     == {"DEBinomialCrossover", "DEExponentialCrossover"}
 Comps   == RealMut \cup BitMut \cup PermMut \cup Cross \cup DEX \cup {"DEMutation"}
+
+IdComps  == RealMut \cup BitMut \cup {"ScrambleMutation"}    \* struct<I: Identifier>, state keyed by Self
+StrComps == {"NormalMutation", "UniformMutation"}           \* ... with a MutationStrength<Self>
+IdSeq    == <<"Global", "A", "B">>
+StTop    == 4                                                \* valid strengths: ladder indices 1..StTop
+StBad    == 9
+
+(* Every public constructor of every component (the code's `impl` blocks). *)
+Ctors(c) ==
+    CASE c = "NormalMutation"         -> {"new", "new_with_id", "from_params", "new_dev"}
+      [] c = "UniformMutation"        -> {"new", "new_with_id", "from_params", "new_bound"}
+      [] c = "BitFlipMutation"        -> {"new", "new_with_id", "from_params"}
+      [] c \in {"PartialRandomSpread", "ScrambleMutation"}
+                                      -> {"new", "new_with_id", "from_params", "new_full"}
+      [] c = "PartialRandomBitstring" -> {"new", "new_with_id", "from_params", "new_uniform", "new_full",
+                                          "new_uniform_full"}
+      [] c \in Cross                  -> {"new", "from_params", "new_insert_single", "new_insert_both"}
+      [] OTHER                        -> {"new", "from_params"}
+(* constructors that exist for every identifier (the others: Global only)  *)
+IdCtors == {"new_with_id", "from_params"}
+
+(* What a constructor decides by itself instead of taking it as argument   *)
+(* (its name and documentation): "full" / "dev" / "bound" variants mutate  *)
+(* with rate 1, "uniform" variants sample bits with p = 0.5, "insert       *)
+(* single" keeps the first child of a pair, "insert both" both children.   *)
+FixPr(ctor)   == IF ctor \in {"new_dev", "new_bound", "new_full", "new_uniform_full"} THEN 2 ELSE NoVal
+Half == 5       \* class of a probability that is exactly 0.5
+FixP2(ctor)   == IF ctor \in {"new_uniform", "new_uniform_full"} THEN Half ELSE NoVal
+FixBoth(ctor) == IF ctor = "new_insert_single" THEN 0 ELSE IF ctor = "new_insert_both" THEN 1 ELSE NoVal
+Or(fix, given) == IF fix # NoVal THEN fix ELSE given
+(* the parameters of the instance as built                                 *)
+Built(a) == [pr |-> Or(FixPr(a.ctor), a.pr), p2 |-> Or(FixP2(a.ctor), a.p2), both |-> Or(FixBoth(a.ctor), a.both)]
+
+(* The identifier-keyed parameter states after every instance has been     *)
+(* initialised (`init` inserts MutationRate<Self> / MutationStrength<Self> *)
+(* with the values the instance was built with) and the adaptations have   *)
+(* been written: identifier -> <<rate class, strength index>>.             *)
+SibOf(a, i) == a.sibs[CHOOSE k \in DOMAIN a.sibs : a.sibs[k].id = i]
+RECURSIVE Adapted(_, _)
+Adapted(reg, ad) == IF ad = <<>> THEN reg
+                    ELSE Adapted(TLCEval([reg EXCEPT ![ad[1].id][ad[1].w] = ad[1].v]), Tail(ad))
+RegOf(a) ==
+    LET str(x) == IF a.c \in StrComps THEN x ELSE NoVal
+        inited == [i \in Range(IdSeq) |->
+                     IF i = a.id THEN <<Built(a).pr, str(a.st)>>
+                     ELSE IF \E k \in DOMAIN a.sibs : a.sibs[k].id = i
+                          THEN <<SibOf(a, i).pr, str(SibOf(a, i).st)>>
+                          ELSE <<NoVal, NoVal>>]
+    IN Adapted(inited, a.adapt)
+
+(* The parameters the executed instance has to obey: those of ITS OWN      *)
+(* identifier as they stand in the state for the adaptable ones, the       *)
+(* built ones otherwise.  (Same record shape as cact.)                     *)
+Eff(a) ==
+    LET b == Built(a) IN
+    IF a.c \in IdComps
+    THEN [a EXCEPT !.pr = RegOf(a)[a.id][1], !.p2 = b.p2, !.both = b.both,
+                   !.st = IF a.c \in StrComps THEN RegOf(a)[a.id][2] ELSE a.st]
+    ELSE [a EXCEPT !.pr = b.pr, !.p2 = b.p2, !.both = b.both]
 
 SameShape(o, p) == Len(o) = Len(p) /\ \A j \in 1..Len(p) : Len(o[j]) = Len(p[j])
 AllIn(o, S)     == \A j \in 1..Len(o) : \A c \in 1..Len(o[j]) : o[j][c] \in S
@@ -310,9 +462,11 @@ XMatch(a, ps, os) ==
             /\ XMatch(a, rest, Tail(os))
 
 (* ArithmeticCrossover on real vectors: pin[j] = <<j,..>>, out[o] = tag of *)
-(* the identical input or 0; pred[o][m] = 1 iff output o is coordinatewise *)
-(* between the parents of pair m; pred2[o][m] = 1 iff out[o] + out[o+1] =  *)
-(* sum of the parents of pair m (up to rounding; 0 if there is no o+1).    *)
+(* the identical input or 0; pred[o][m] = 1 iff output o is finite and     *)
+(* coordinatewise between the parents of pair m (each end widened by 4 ulp *)
+(* of itself); pred2[o][m] = 1 iff out[o] + out[o+1] = sum of the parents  *)
+(* of pair m (halves compared, up to rounding; 0 if there is no o+1).      *)
+(* Populations are drawn from a box or from the table of extreme values.   *)
 RECURSIVE AMatch(_, _, _, _, _)
 AMatch(a, r, m, o, npairs) ==    \* m = next pair, o = next output (both 1-based)
     LET no == Len(r.out) IN
@@ -335,11 +489,21 @@ CircularRun(S, d) ==    \* S is a non-empty run of consecutive positions modulo 
     /\ \/ S = 1..d
        \/ Cardinality({c \in S : ((c % d) + 1) \notin S}) = 1
 
-CompRel(a, r) ==
+(* UniformMutation: a coordinate moves by at most the bound               *)
+MagOK(a, r) ==
+    /\ SameShape(r.mag, a.pin)
+    /\ \A j \in 1..Len(a.pin) : \A c \in 1..Len(a.pin[j]) :
+          /\ (r.mag[j][c] = 0) <=> (r.out[j][c] = 0)
+          /\ r.mag[j][c] <= a.st
+
+(* `a` = the case with the parameters the instance has to obey (Eff)       *)
+CompRelE(a, r) ==
     CASE a.c \in RealMut ->
-            IF a.pr = 3 THEN r.k = "err"
+            \* documented: Err iff the MutationRate or MutationStrength holds an invalid value
+            IF a.pr = 3 \/ a.st = StBad THEN r.k = "err"
             ELSE /\ Fine(a, r) /\ SameShape(r.out, a.pin) /\ AllIn(r.out, {0, 1})
                  /\ a.pr = 0 => AllIn(r.out, {0})
+                 /\ IF a.c = "UniformMutation" THEN MagOK(a, r) ELSE r.mag = <<>>
       [] a.c = "BitFlipMutation" ->
             IF a.pr = 3 THEN r.k = "err"
             ELSE /\ Fine(a, r) /\ SameShape(r.out, a.pin) /\ AllIn(r.out, {0, 1})
@@ -406,10 +570,47 @@ CompRel(a, r) ==
                   /\ a.pr = 2 => r.out[j] = a.base[j]
       [] OTHER -> FALSE
 
+(* the parameter states read back after the execution are the modelled     *)
+(* ones: `init` wrote under the instance's own identifier, nothing else    *)
+(* was touched                                                             *)
+RegOK(a, r) ==
+    IF a.c \in IdComps /\ r.k \in {"ok", "err"}
+    THEN r.reg = [k \in 1..Len(IdSeq) |-> RegOf(a)[IdSeq[k]]]
+    ELSE r.reg = <<>>
+
+(* the instance serialises the parameters its constructor stands for       *)
+BuiltOK(a, r) ==
+    IF r.k \in {"ok", "err"}
+    THEN r.built = <<Built(a).pr, Built(a).p2, Built(a).both, a.st, a.np>>
+    ELSE r.built = <<>>
+
+CompRel(a, r) == /\ RegOK(a, r)
+                 /\ BuiltOK(a, r)
+                 /\ a.c # "UniformMutation" => r.mag = <<>>
+                 /\ CompRelE(Eff(a), r)
+
 (* consistency of the logged argument projections                          *)
 ValidComp(a) ==
     /\ a.c \in Comps
-    /\ a.pr \in 0..3 /\ a.p2 \in 0..3 /\ a.both \in {0, 1}
+    /\ a.ctor \in Ctors(a.c)
+    /\ a.id \in Range(IdSeq)
+    /\ a.id # "Global" => a.c \in IdComps /\ a.ctor \in IdCtors
+    \* an argument is logged iff the constructor takes it
+    /\ a.pr \in (IF FixPr(a.ctor) # NoVal THEN {NoVal} ELSE 0..3)
+    /\ a.p2 \in (IF FixP2(a.ctor) # NoVal THEN {NoVal} ELSE 0..3 \cup {Half})
+    /\ a.both \in (IF FixBoth(a.ctor) # NoVal THEN {NoVal} ELSE {0, 1})
+    /\ a.st \in (IF a.c \in StrComps THEN 1..StTop \cup {StBad} ELSE {0})
+    \* siblings: other identifiers of an identifier-generic component; adaptations address existing instances
+    /\ a.c \notin IdComps => a.sibs = <<>> /\ a.adapt = <<>>
+    /\ \A k \in DOMAIN a.sibs :
+          /\ a.sibs[k].id \in Range(IdSeq) \ {a.id}
+          /\ \A k2 \in DOMAIN a.sibs : k2 # k => a.sibs[k2].id # a.sibs[k].id
+          /\ a.sibs[k].pr \in 0..3
+          /\ a.sibs[k].st \in (IF a.c \in StrComps THEN 1..StTop \cup {StBad} ELSE {0})
+    /\ \A k \in DOMAIN a.adapt :
+          /\ a.adapt[k].id \in {a.id} \cup {a.sibs[k2].id : k2 \in DOMAIN a.sibs}
+          /\ \/ a.adapt[k].w = 1 /\ a.adapt[k].v \in 0..3
+             \/ a.adapt[k].w = 2 /\ a.c \in StrComps /\ a.adapt[k].v \in 1..StTop \cup {StBad}
     /\ a.nrel = (IF 1 <= a.np /\ a.np < a.dim THEN 0 ELSE 1)
     /\ \A j \in 1..Len(a.pin) : Len(a.pin[j]) = a.dim
     /\ a.c \in DEX => SameShape(a.base, a.pin)
@@ -426,13 +627,35 @@ DoComp(a, r) == /\ ValidComp(a)
 (* Properties of component executions, stated independently of CompRel.    *)
 COk == cact.c # "-" /\ cres.k = "ok"
 
+(* The parameters an instance has to obey, read off the case directly: the *)
+(* value last written under ITS OWN identifier (by its `init`, then by     *)
+(* adaptations addressed to that identifier); whatever was built or        *)
+(* written under another identifier is irrelevant.                         *)
+RECURSIVE LastOwn(_, _, _, _)
+LastOwn(ad, id, w, cur) ==
+    IF ad = <<>> THEN cur
+    ELSE LastOwn(Tail(ad), id, w, IF ad[1].id = id /\ ad[1].w = w THEN ad[1].v ELSE cur)
+OwnPr(a)   == IF a.c \in IdComps THEN LastOwn(a.adapt, a.id, 1, Built(a).pr) ELSE Built(a).pr
+OwnSt(a)   == IF a.c \in StrComps THEN LastOwn(a.adapt, a.id, 2, a.st) ELSE a.st
+OwnP2(a)   == Built(a).p2
+OwnBoth(a) == Built(a).both
+
+(* the folded state model agrees with that reading: siblings never matter  *)
+CompOwnParameters ==
+    cact.c # "-" =>
+        LET e == Eff(cact) IN
+        e.pr = OwnPr(cact) /\ e.st = OwnSt(cact) /\ e.p2 = OwnP2(cact) /\ e.both = OwnBoth(cact)
+
 (* valid parameters and a valid population: no Err, no panic               *)
 ParamsValid(a) ==
-    /\ a.pr # 3
+    /\ OwnPr(a) # 3 /\ OwnSt(a) # StBad
     /\ a.c = "SwapMutation" => a.np >= 2 /\ \A j \in 1..Len(a.pin) : a.np <= Len(a.pin[j])
     /\ a.c = "NPointCrossover" => a.nrel = 0
     /\ a.c = "DEMutation" => a.np \in {1, 2} /\ Len(a.pin) % (2 * a.np + 1) = 0
 CompNoFailure == (cact.c # "-" /\ ParamsValid(cact)) => cres.k = "ok"
+(* ... and an invalid own rate / strength is reported as Err (documented)  *)
+CompInvalidRejected ==
+    (cact.c \in IdComps /\ (OwnPr(cact) = 3 \/ OwnSt(cact) = StBad)) => cres.k = "err"
 
 CompPermutationClosure ==
     (COk /\ cact.c \in PermMut) =>
@@ -443,18 +666,39 @@ CompDimensionKept ==
     (COk /\ cact.c \in RealMut \cup BitMut \cup PermMut \cup DEX) => SameShape(cres.out, cact.pin)
 
 CompRateZero ==
-    (COk /\ cact.pr = 0 /\ cact.c \in BitMut \cup {"ScrambleMutation"} \cup GeneX) => cres.out = cact.pin
+    (COk /\ OwnPr(cact) = 0 /\ cact.c \in BitMut \cup {"ScrambleMutation"} \cup GeneX) => cres.out = cact.pin
 CompRateZeroReal ==
-    (COk /\ cact.pr = 0 /\ cact.c \in RealMut) => AllIn(cres.out, {0})
+    (COk /\ OwnPr(cact) = 0 /\ cact.c \in RealMut) => AllIn(cres.out, {0})
+(* a uniform mutation moves a coordinate by at most its own bound          *)
+CompStrengthBound ==
+    (COk /\ cact.c = "UniformMutation") => AllIn(cres.mag, 0..OwnSt(cact))
 
 CompOffspringCount ==
     (COk /\ cact.c \in Cross /\ cact.nrel = 0) =>
         LET n == Len(cact.pin) IN
         /\ Len(cres.out) <= n
         /\ Len(cres.out) >= ((n \div 2) + (n % 2))
-        /\ cact.both = 1 => Len(cres.out) = n
-        /\ (cact.both = 0 /\ cact.pr = 2) => Len(cres.out) = ((n \div 2) + (n % 2))
-        /\ cact.pr = 0 => Len(cres.out) = n
+        /\ OwnBoth(cact) = 1 => Len(cres.out) = n
+        /\ (OwnBoth(cact) = 0 /\ OwnPr(cact) = 2) => Len(cres.out) = ((n \div 2) + (n % 2))
+        /\ OwnPr(cact) = 0 => Len(cres.out) = n
+(* every convenience constructor builds the variant its name says          *)
+CompCtorVariant ==
+    LET n == Len(cact.pin) IN
+    /\ (cact.c # "-" /\ cres.k \in {"ok", "err"}) =>
+          /\ cact.ctor \in {"new_dev", "new_bound", "new_full", "new_uniform_full"} => cres.built[1] = 2
+          /\ cact.ctor \in {"new_uniform", "new_uniform_full"} => cres.built[2] = Half
+          /\ cact.ctor = "new_insert_single" => cres.built[3] = 0
+          /\ cact.ctor = "new_insert_both" => cres.built[3] = 1
+          /\ cact.ctor \in {"new", "from_params", "new_with_id"} =>
+                cres.built = <<cact.pr, cact.p2, cact.both, cact.st, cact.np>>
+    /\ (COk /\ cact.c \in Cross /\ cact.nrel = 0) =>
+          /\ cact.ctor = "new_insert_both" => Len(cres.out) = n
+          /\ (cact.ctor = "new_insert_single" /\ cact.pr = 2) => Len(cres.out) = ((n \div 2) + (n % 2))
+    /\ (COk /\ cact.c = "PartialRandomBitstring" /\ cact.adapt = <<>>
+            /\ cact.ctor \in {"new_full", "new_uniform_full"}) =>
+          \* every bit is re-sampled: with p = 0 / p = 1 the outcome is determined
+          /\ cact.p2 = 0 => AllIn(cres.out, {0})
+          /\ cact.p2 = 2 => AllIn(cres.out, {1})
 CompDEFormat ==
     (COk /\ cact.c = "DEMutation") => Len(cres.out) * (2 * cact.np + 1) = Len(cact.pin)
 
